@@ -4,8 +4,8 @@
    unwrap / expect / panicking macro / index / slice / arithmetic site of the functions syntactically reachable
    from Module::parse and Component::parse, keyed by (file, function, kind, ordinal within the function, token text).
    This file gives each of them a status:
-     Reachable k : the site is a known panic site of class k (Model/ParseGlue.v, known_findings.json D09a..D09l);
-                   the model reproduces it and Props/C03.v has a witness for it;
+     Reachable k : the site is a known panic site of class k (Model/ParseGlue.v) -- none since the repairs of
+                   D09a..D09l: every site that used to be Reachable (classes 901..912) has been removed from /repo;
      Guarded why : the site cannot fire on the parse path, for the one-line reason given (an argument by reading,
                    not a proof; the fuzzing correspondence never saw it fire);
      Unknown     : not analysed (none today).
@@ -33,54 +33,40 @@ Definition site_status : list (site * status) := [
       Guarded "`*num_sections > 0` is tested first (&&) and num_sections = sections.len(): both only grow, together, in the else-branch");
   (mkSite "src/ir/component.rs" "Component::add_to_sections" "arith" 3 "*num_sections+=1",
       Guarded "a counter of items / sections actually read from the input: bounded by the input length, an overflow needs an input of at least 4 GiB");
-  (mkSite "src/ir/component.rs" "Component::parse_comp" "slice" 0 "wasm[unchecked_range.start-start..unchecked_range.end-start]",
-      Reachable site_comp_slice);
-  (mkSite "src/ir/component.rs" "Component::parse_comp" "arith" 0 "unchecked_range.start-start",
+  (mkSite "src/ir/component.rs" "Component::nested_section" "arith" 0 "range.start-start",
       Guarded "`start` is the offset the (nested) parser was created with; every range it reports lies at or after that offset");
-  (mkSite "src/ir/component.rs" "Component::parse_comp" "arith" 1 "unchecked_range.end-start",
-      Guarded "`start` is the offset the (nested) parser was created with; every range it reports lies at or after that offset");
-  (mkSite "src/ir/component.rs" "Component::parse_comp" "slice" 1 "wasm[unchecked_range.start-start..unchecked_range.end-start]",
-      Reachable site_comp_slice);
-  (mkSite "src/ir/component.rs" "Component::parse_comp" "arith" 2 "unchecked_range.start-start",
-      Guarded "`start` is the offset the (nested) parser was created with; every range it reports lies at or after that offset");
-  (mkSite "src/ir/component.rs" "Component::parse_comp" "arith" 3 "unchecked_range.end-start",
-      Guarded "`start` is the offset the (nested) parser was created with; every range it reports lies at or after that offset");
+  (mkSite "src/ir/component.rs" "Component::nested_section" "arith" 1 "range.end-range.start",
+      Guarded "a Range reported by wasmparser has start <= end");
   (mkSite "src/ir/component.rs" "Component::parse_comp" "unwrap" 0 "name.parse().unwrap()",
       Guarded "String::from_str is infallible");
   (mkSite "src/ir/module/mod.rs" "Module::parse_internal" "arith" 0 "num_locals+=count",
       Guarded "wasmparser's LocalsReader::read keeps its own checked running total and fails with `too many locals` before the sum can pass u32::MAX");
-  (mkSite "src/ir/module/mod.rs" "Module::parse_internal" "macro" 0 "panic!('Error encored in tag section!:{}',e)",
-      Reachable site_tag_section);
-  (mkSite "src/ir/module/mod.rs" "Module::parse_internal" "arith" 1 "import_func_count+=1",
-      Guarded "a counter of items / sections actually read from the input: bounded by the input length, an overflow needs an input of at least 4 GiB");
-  (mkSite "src/ir/module/mod.rs" "Module::parse_internal" "arith" 2 "abs_idx-imports.num_funcs",
-      Guarded "else-branch of `abs_idx < imports.num_funcs`");
-  (mkSite "src/ir/module/mod.rs" "Module::parse_internal" "index" 0 "code_sections[rel_idx as usize]",
-      Reachable site_name_func_index);
-  (mkSite "src/ir/module/mod.rs" "Module::parse_internal" "expect" 0 "producer_section_reader.into_iter().next().unwrap().expect('producers field')",
-      Reachable site_producers_field);
-  (mkSite "src/ir/module/mod.rs" "Module::parse_internal" "unwrap" 0 "producer_section_reader.into_iter().next().unwrap()",
-      Reachable site_producers_none);
-  (mkSite "src/ir/module/mod.rs" "Module::parse_internal" "expect" 1 "field.values.into_iter().collect::<Result<Vec<_>,_>>().expect('values')",
-      Reachable site_producers_values);
-  (mkSite "src/ir/module/mod.rs" "Module::parse_internal" "macro" 1 "todo!()",
+  (mkSite "src/ir/module/mod.rs" "Module::parse_internal" "macro" 0 "todo!()",
       Guarded "the arms above match all 29 variants that wasmparser 0.235 defines for the non_exhaustive enum Payload");
-  (mkSite "src/ir/module/mod.rs" "Module::parse_internal" "unwrap" 1 "imp.name.parse().unwrap()",
+  (mkSite "src/ir/module/mod.rs" "Module::parse_internal" "arith" 1 "abs_idx-imports.num_funcs",
+      Guarded "else-branch of `abs_idx < imports.num_funcs`");
+  (mkSite "src/ir/module/mod.rs" "Module::parse_internal" "unwrap" 0 "imp.name.parse().unwrap()",
       Guarded "String::from_str is infallible");
-  (mkSite "src/ir/module/mod.rs" "Module::parse_internal" "arith" 3 "imp_fn_id+=1",
+  (mkSite "src/ir/module/mod.rs" "Module::parse_internal" "arith" 2 "imp_fn_id+=1",
+      Guarded "a counter of items / sections actually read from the input: bounded by the input length, an overflow needs an input of at least 4 GiB");
+  (mkSite "src/ir/module/mod.rs" "Module::parse_internal" "index" 0 "functions[index]",
+      Guarded "index < code_sections.len() = functions.len() after the IncorrectCodeCounts check");
+  (mkSite "src/ir/module/mod.rs" "Module::parse_internal" "arith" 3 "imports.num_funcs as usize+index",
       Guarded "a counter of items / sections actually read from the input: bounded by the input length, an overflow needs an input of at least 4 GiB");
   (mkSite "src/ir/module/mod.rs" "Module::parse_internal" "index" 1 "functions[index]",
       Guarded "index < code_sections.len() = functions.len() after the IncorrectCodeCounts check");
+  (mkSite "src/ir/module/mod.rs" "Module::parse_internal" "index" 2 "functions[index]",
+      Guarded "index < code_sections.len() = functions.len() after the IncorrectCodeCounts check");
   (mkSite "src/ir/module/mod.rs" "Module::parse_internal" "arith" 4 "imports.num_funcs+index as u32",
       Guarded "a counter of items / sections actually read from the input: bounded by the input length, an overflow needs an input of at least 4 GiB");
-  (mkSite "src/ir/module/mod.rs" "Module::parse_internal" "index" 2 "types[&functions[index]]",
-      Reachable site_func_type_missing);
-  (mkSite "src/ir/module/mod.rs" "Module::parse_internal" "index" 3 "functions[index]",
-      Guarded "index < code_sections.len() = functions.len() after the IncorrectCodeCounts check");
   (mkSite "src/ir/module/mod.rs" "Module::parse_internal" "arith" 5 "imp_mem_id+=1",
       Guarded "a counter of items / sections actually read from the input: bounded by the input length, an overflow needs an input of at least 4 GiB");
   (mkSite "src/ir/module/mod.rs" "Module::parse_internal" "arith" 6 "imports.num_memories+index as u32",
       Guarded "a counter of items / sections actually read from the input: bounded by the input length, an overflow needs an input of at least 4 GiB");
+  (mkSite "src/ir/module/module_functions.rs" "Functions::get" "index" 0 "self.functions[*function_id as usize]",
+      Guarded "not on the parse path: matched by name only (the `.get(..)` / `.get_mut(..)` calls of the parse path are on a HashMap, a Vec and a slice)");
+  (mkSite "src/ir/module/module_functions.rs" "Functions::get_mut" "index" 0 "self.functions[*function_id as usize]",
+      Guarded "not on the parse path: matched by name only (the `.get(..)` / `.get_mut(..)` calls of the parse path are on a HashMap, a Vec and a slice)");
   (mkSite "src/ir/module/module_globals.rs" "ModuleGlobals::new" "arith" 0 "curr_global_id+=1",
       Guarded "a counter of items / sections actually read from the input: bounded by the input length, an overflow needs an input of at least 4 GiB");
   (mkSite "src/ir/module/module_globals.rs" "ModuleGlobals::new" "arith" 1 "curr_global_id+=1",
@@ -107,6 +93,8 @@ Definition site_status : list (site * status) := [
       Guarded "not on the parse path: matched by name only (`result.add(..)` in ModuleGlobals::new has a ModuleGlobals receiver)");
   (mkSite "src/ir/module/module_imports.rs" "ModuleImports::add" "arith" 10 "self.imports.len()-1",
       Guarded "not on the parse path: matched by name only (`result.add(..)` in ModuleGlobals::new has a ModuleGlobals receiver)");
+  (mkSite "src/ir/module/module_imports.rs" "ModuleImports::get" "index" 0 "self.imports[*id as usize]",
+      Guarded "not on the parse path: matched by name only (the `.get(..)` / `.get_mut(..)` calls of the parse path are on a HashMap, a Vec and a slice)");
   (mkSite "src/ir/module/module_imports.rs" "ModuleImports::new" "arith" 0 "def.num_funcs+=1",
       Guarded "a counter of items / sections actually read from the input: bounded by the input length, an overflow needs an input of at least 4 GiB");
   (mkSite "src/ir/module/module_imports.rs" "ModuleImports::new" "arith" 1 "def.num_globals+=1",
@@ -117,20 +105,24 @@ Definition site_status : list (site * status) := [
       Guarded "a counter of items / sections actually read from the input: bounded by the input length, an overflow needs an input of at least 4 GiB");
   (mkSite "src/ir/module/module_imports.rs" "ModuleImports::new" "arith" 4 "def.num_memories+=1",
       Guarded "a counter of items / sections actually read from the input: bounded by the input length, an overflow needs an input of at least 4 GiB");
+  (mkSite "src/ir/module/module_memories.rs" "Memories::get_mut" "index" 0 "self.memories[*mem_id as usize]",
+      Guarded "not on the parse path: matched by name only (the `.get(..)` / `.get_mut(..)` calls of the parse path are on a HashMap, a Vec and a slice)");
+  (mkSite "src/ir/module/module_tables.rs" "ModuleTables::get" "index" 0 "self.tables[*table_id as usize]",
+      Guarded "not on the parse path: matched by name only (the `.get(..)` / `.get_mut(..)` calls of the parse path are on a HashMap, a Vec and a slice)");
+  (mkSite "src/ir/module/module_tables.rs" "ModuleTables::get_mut" "index" 0 "self.tables[*table_id as usize]",
+      Guarded "not on the parse path: matched by name only (the `.get(..)` / `.get_mut(..)` calls of the parse path are on a HashMap, a Vec and a slice)");
+  (mkSite "src/ir/module/module_tables.rs" "ModuleTables::get_mut" "macro" 0 "panic!('Invalid Table ID')",
+      Guarded "not on the parse path: matched by name only (the `.get(..)` / `.get_mut(..)` calls of the parse path are on a HashMap, a Vec and a slice)");
+  (mkSite "src/ir/module/module_types.rs" "ModuleTypes::new" "index" 0 "types[&id]",
+      Guarded "id ranges over `types.keys()` collected two lines above from the same (unmodified) map: the key is present");
   (mkSite "src/ir/module/module_types.rs" "Types::params" "macro" 0 "panic!('Not a function!')",
-      Reachable site_func_type_kind);
+      Guarded "not on the parse path: matched by name only (`fty.params()` in parse_internal is wasmparser::FuncType::params; the function list matches on Types::FuncType directly)");
   (mkSite "src/ir/module/module_types.rs" "Types::results" "macro" 0 "panic!('Not a function!')",
       Guarded "not on the parse path: matched by name only (`fty.results()` in parse_internal is wasmparser::FuncType::results)");
   (mkSite "src/ir/types.rs" "DataType::from [From<ValType>]" "macro" 0 "panic!('Not supported yet!')",
       Guarded "UnpackedIndex::Id is produced by the validator's canonicalisation only, never by the binary reader");
-  (mkSite "src/ir/types.rs" "InitExpr::eval" "unwrap" 0 "reader.read().unwrap()",
-      Guarded "ConstExpr::from_reader (skip_const_expr) has already read the same bytes with the same operators reader without error");
-  (mkSite "src/ir/types.rs" "InitExpr::eval" "unwrap" 1 "RefType::new(true,hty).unwrap()",
+  (mkSite "src/ir/types.rs" "InitExpr::eval" "unwrap" 0 "RefType::new(true,hty).unwrap()",
       Guarded "HeapType::from_reader has already packed the concrete index (PackedIndex::from_module_index), so RefType::new succeeds");
-  (mkSite "src/ir/types.rs" "InitExpr::eval" "macro" 0 "panic!('Invalid constant expression')",
-      Reachable site_const_expr_op);
-  (mkSite "src/ir/types.rs" "InitExpr::eval" "macro" 1 "panic!('There was more data after the function end!')",
-      Guarded "the ConstExpr range ends right after the first `end` that leaves the control stack empty; eval stops at that same `end`");
   (mkSite "src/ir/types.rs" "v128_to_u128" "arith" 0 "(n[0]as u128)<<0",
       Guarded "u128 shifted left by a literal < 128");
   (mkSite "src/ir/types.rs" "v128_to_u128" "index" 0 "n[0]",
@@ -194,11 +186,5 @@ Definition site_status : list (site * status) := [
   (mkSite "src/ir/types.rs" "v128_to_u128" "arith" 15 "(n[15]as u128)<<120",
       Guarded "u128 shifted left by a literal < 128");
   (mkSite "src/ir/types.rs" "v128_to_u128" "index" 15 "n[15]",
-      Guarded "n : [u8; 16] indexed by a literal < 16");
-  (mkSite "src/ir/wrappers.rs" "add_to_namemap" "unwrap" 0 "name.unwrap()",
-      Reachable site_comp_namemap);
-  (mkSite "src/ir/wrappers.rs" "indirect_namemap_parser2encoder" "unwrap" 0 "name.unwrap()",
-      Reachable site_indirect_namemap);
-  (mkSite "src/ir/wrappers.rs" "namemap_parser2encoder" "unwrap" 0 "name.unwrap()",
-      Reachable site_namemap)
+      Guarded "n : [u8; 16] indexed by a literal < 16")
 ].
